@@ -17,8 +17,11 @@ cp /verif/known_findings.json $B/out/
 cd $H/harness
 for id in "$@"; do
   case $id in C01|C02|C28) pkg=vfs;; C27) pkg=wasmmc;; *) pkg=vmc;; esac
+  feat=""; T=${SEED_TARGET_DIR:-/verif/harness/target-seed}
+  if [ $id = C29 ]; then feat="--features vectors,zstd"; T=$T-feat; fi
+  export CARGO_TARGET_DIR=$T
   # build and take a private copy of the binary under a lock: other callers share the target dir
-  ( flock 9; rm -f $CARGO_TARGET_DIR/verif/$pkg $B/$pkg.bin; cargo build --offline --profile verif -p $pkg 2>&1 | grep -E "^error" -A 6 | head -20
+  ( flock 9; rm -f $CARGO_TARGET_DIR/verif/$pkg $B/$pkg.bin; cargo build --offline --profile verif -p $pkg $feat 2>&1 | grep -E "^error" -A 6 | head -20
     cp $CARGO_TARGET_DIR/verif/$pkg $B/$pkg.bin ) 9>/verif/harness/.seedrun.lock
   [ -x $B/$pkg.bin ] || { echo "$id BUILD FAILED (no verdict)"; continue; }
   rc=0; out=$($B/$pkg.bin $id quick 2>&1) || rc=$?
